@@ -393,9 +393,57 @@ def r5_eventtime(ctx: Context, rule="C16.R5") -> None:
                   f"EventTime.{sname}() is `{norm(rets[0].value) if rets else '?'}`")
 
 
+TIMEY_ATTRS = ("runtime", "remaining_time", "deadline", "release_time", "start_time", "placement_time", "completion_time", "slo", "period",
+               "expected_start_time", "intended_release_time", "_start", "_period", "scheduler_runtime", "lookahead", "plan_ahead",
+               "_plan_ahead", "_time_discretization", "_runtime", "_remaining_time", "_deadline", "_release_time", "critical_path_runtime")
+UNIT_LINT_FILES = ("simulator.py", "workload/", "workers/", "schedulers/edf_scheduler.py", "schedulers/fifo_scheduler.py", "schedulers/lsf_scheduler.py",
+                   "schedulers/ilp_scheduler.py", "schedulers/tetrisched_gurobi_scheduler.py", "schedulers/tetrisched_cplex_scheduler.py",
+                   "schedulers/z3_scheduler.py", "schedulers/clockwork_scheduler.py", "schedulers/base_scheduler.py", "data/workload_loader.py",
+                   "data/worker_loader.py")
+
+
+def r6_no_raw_time_numbers(ctx: Context, rule: str = "C16.R6", files=UNIT_LINT_FILES, floor: int = 100) -> None:
+    ctx.rule(rule, "unit discipline outside EventTime: wherever the number inside an EventTime-valued attribute (.runtime, "
+                   ".remaining_time, .deadline, .release_time, ...) is used in arithmetic, a comparison, a sort key or a model "
+                   "constraint, it is read as `.to(<unit>).time`; a bare `.time` compares 2 ms with 900 us as 2 < 900 (logging "
+                   "and string formatting are exempt)")
+    n_conv = 0
+    for m in ctx.repo.program_modules():
+        if not m.rel.startswith(files):
+            continue
+        for a in ast.walk(m.tree):
+            if not (isinstance(a, ast.Attribute) and a.attr == "time"):
+                continue
+            v = a.value
+            if isinstance(v, ast.Call) and isinstance(v.func, ast.Attribute) and v.func.attr == "to":
+                n_conv += 1
+                continue
+            if not (isinstance(v, ast.Attribute) and v.attr in TIMEY_ATTRS):
+                continue
+            cls = enclosing_class(a)
+            if cls is not None and cls.name == "EventTime":
+                continue
+            p = parent(a)
+            textual = False
+            while p is not None and not isinstance(p, (ast.FunctionDef, ast.AsyncFunctionDef, ast.Module)):
+                if isinstance(p, (ast.JoinedStr, ast.FormattedValue)):
+                    textual = True
+                if isinstance(p, ast.Call) and call_name(p) in ("debug", "info", "warning", "warn", "error", "critical", "str", "format", "print", "repr"):
+                    textual = True
+                p = parent(p)
+            if textual:
+                continue
+            ctx.violation(rule, f"{qualname(a)}|raw `{norm(a)[:50]}` used as a number", loc(a),
+                          f"`{norm(a)[:70]}` reads the bare number of an EventTime without converting the unit: a value given in ms or s is "
+                          "mixed with microsecond quantities (wrong order, wrong bound, wrong release or finish time)")
+    ctx.floor(rule, "unit-converted reads (`.to(unit).time`) in the files under the lint", n_conv, floor)
+    ctx.ok(rule, "program|numeric reads of EventTime values are unit-converted", "program", f"{n_conv} converted reads")
+
+
 def run(ctx: Context) -> None:
     ctx.isolate(r1_reheapify)
     ctx.isolate(r2_encapsulation)
     ctx.isolate(r3_ordering_key)
     ctx.isolate(r4_type_priorities)
     ctx.isolate(r5_eventtime)
+    ctx.isolate(r6_no_raw_time_numbers)
